@@ -36,6 +36,7 @@ static char tlsname[MAXTH][16]; static int hdepth[MAXTH]; static int insec[MAXTH
 #ifdef FLAVOR_BP
 /* bp: the reader state of a registered thread never moves (C15): remember the slot the thread was first seen with */
 static void *myslot[MAXTH]; static int exiting[MAXTH];     /* during thread exit a handler may legitimately register the thread anew */
+static int is_exiting(int t){ return t>=0 && t<MAXTH && exiting[t]; }
 static void slot_check(int t){ void *p=URCU_TLS(urcu_bp_reader); if(!p||exiting[t]) return; if(!myslot[t]) myslot[t]=p; else if(myslot[t]!=p){ vs_note("BUG the reader slot of thread %d moved from %p to %p (registered twice)",t,myslot[t],p); myslot[t]=p; } }
 #else
 #define slot_check(t) do{}while(0)
@@ -100,7 +101,7 @@ int main(int argc,char**argv){
 #ifdef FLAVOR_BP
 	/* a handler that uses RCU while the exiting thread holds init_lock in urcu_bp_exit() would re-register and self-deadlock on init_lock; the thread is no longer
 	   a registered reader there, so this is outside C19: such a signal is kept pending until the unlock */
-	vs_defer_signals_while_holding(&init_lock);
+	vs_defer_signals_while_holding(&init_lock); vs_defer_signals_only_if(is_exiting);      /* everywhere else (registration on first use) the library itself must keep signals away from init_lock */
 #endif
 	vs_region(pre,sizeof pre,"pre"); vs_region(post,sizeof post,"post");
 	vs_set_signal_handler(handler);
